@@ -1,6 +1,6 @@
 CONSTANTS
   Defects = {"quote_unescaped"}
-  Family = "names"
+  Family = "names_small"
   Deep = FALSE
 INIT Init
 NEXT Next
